@@ -1,5 +1,271 @@
-(* C02 — property theorems (placeholder until the model is built). *)
-From WI Require Import Lib.Base Lib.Info Model.Keys Proofs.Keys.
-Theorem C02_placeholder : True.
-Proof. exact I. Qed.
-Print Assumptions C02_placeholder.
+(* C02 — keys are described truthfully in every container.
+   Only statements; proofs are in Proofs/Keys.v.  The model (Model/Keys.v) is tied to the Go code
+   by the correspondence check of ./check C02; [describe lib dec c k m] is what the model of the
+   repaired code reports for key k written into container c with metadata m by the writers of
+   Model/Keys.v (for the DER containers: from asn1.Unmarshal's answer on that encoding), see
+   Proofs/Keys.v.  lib / dec are the library answers that are not modelled (validity of an EC point,
+   3DES); the theorems hold for all of them (lib only has to accept the key). *)
+From WI Require Import Lib.Base Lib.Info Lib.Strings Model.Keys Proofs.Keys.
+Import gen.KeyTables.
+Open Scope N_scope.
+
+(* T1: the regenerated OID and name tables are those of RFC 8017/3279/5480/8410 and FIPS 186, and both
+   routes to a curve name (by OID, by Go's curve parameters) give the same display string *)
+Theorem C02_tables :
+  name_rsa = bs "RSA" /\ name_dsa = bs "DSA" /\ name_ecdsa = bs "ECDSA" /\ name_eddsa = bs "EdDSA" /\ name_ecdh = bs "ECDH"
+  /\ oid_rsa = [1; 2; 840; 113549; 1; 1; 1] /\ oid_dsa = [1; 2; 840; 10040; 4; 1]
+  /\ oid_ec_public_key = [1; 2; 840; 10045; 2; 1]
+  /\ oid_ed25519 = [1; 3; 101; 112] /\ oid_ed448 = [1; 3; 101; 113]
+  /\ oid_x25519 = [1; 3; 101; 110] /\ oid_x448 = [1; 3; 101; 111]
+  /\ forallb (fun c => bytes_eqb (curve_name_from_oid (curve_oid c)) (curve_shown c)
+                       && bytes_eqb (from_curve_params (curve_nist c)) (curve_shown c)) [P224; P256; P384; P521] = true
+  /\ names_curve (bs "Ed25519") = bs "Ed25519" /\ names_curve (bs "Ed448") = bs "Ed448"
+  /\ names_curve (bs "X25519") = bs "X25519" /\ names_curve (bs "X448") = bs "X448".
+Proof. exact tables_ok. Qed.
+Print Assumptions C02_tables.
+
+(* ---------- the arithmetic core: the bit length survives every integer encoding, for ALL n ---------- *)
+
+(* DER INTEGER (two's complement, sign octet when the top bit is set) read by Go's parseBigInt *)
+Theorem C02_bitlen_der : forall n : N,
+  der_int_dec (der_int_enc n) = Ok (Z.of_N n) /\ zbitlen (Z.of_N n) = bitlen n.
+Proof. intros n. split; [apply der_int_roundtrip|apply zbitlen_of_N]. Qed.
+Print Assumptions C02_bitlen_der.
+
+(* SSH mpint read by x/crypto/ssh (signed) and by putty-go (unsigned) *)
+Theorem C02_bitlen_mpint : forall n : N,
+  mpint_dec (mpint_enc n) = Z.of_N n /\ zbitlen (mpint_dec (mpint_enc n)) = bitlen n
+  /\ putty_mpint_dec (mpint_enc n) = n.
+Proof.
+  intros n. repeat split; [apply mpint_roundtrip| |apply putty_mpint_roundtrip].
+  rewrite mpint_roundtrip. apply zbitlen_of_N.
+Qed.
+Print Assumptions C02_bitlen_mpint.
+
+(* SSH1 MPI with its 16-bit bit count (the format cannot hold more than 65535 bits) *)
+Theorem C02_bitlen_ssh1mpi : forall (n : N) (rest : bytes), bitlen n < 65536 ->
+  ssh1_read_mpint (ssh1_mpi_enc n ++ rest) = Ok (n, rest).
+Proof. exact ssh1_mpi_roundtrip. Qed.
+Print Assumptions C02_bitlen_ssh1mpi.
+
+(* ---------- every key in every container ---------- *)
+
+(* the master statement: the description is the container's label, its metadata as stored, and the
+   key facts, nothing else; for every key, container that carries it, metadata within the formats'
+   limits (32-bit lengths, 16-bit MPI counts, ssh-rsa exponent range) and every library answer *)
+Theorem C02_description_exact : forall lib dec c k m,
+  carries c k = true -> fits c k m -> so_accepted lib = true ->
+  describe lib dec c k m = Ok (expected_info c k m).
+Proof. exact describe_exact. Qed.
+Print Assumptions C02_description_exact.
+
+(* algorithm, size in bits and curve are exactly those of the key *)
+Theorem C02_key_facts : forall lib dec c k m,
+  carries c k = true -> fits c k m -> so_accepted lib = true ->
+  key_facts (describe lib dec c k m) = (Some (expected_algorithm k), expected_size k, expected_curve k).
+Proof. exact describe_key_facts. Qed.
+Print Assumptions C02_key_facts.
+
+(* RSA: Size is the bit length of the modulus for every n, whatever its length modulo 8, in all of
+   PKCS#1 public/private, SubjectPublicKeyInfo, PKCS#8, OpenSSH public/private, PuTTY PPK, SSH1 *)
+Theorem C02_rsa_size : forall lib dec c n e m,
+  carries c (KRsa n e) = true -> fits c (KRsa n e) m -> so_accepted lib = true ->
+  attr_of "Size" (describe lib dec c (KRsa n e) m) = Some (dec_of_N (bitlen n) ++ bs " bits")
+  /\ attr_of "Algorithm" (describe lib dec c (KRsa n e) m) = Some (bs "RSA").
+Proof. exact rsa_size. Qed.
+Print Assumptions C02_rsa_size.
+
+Theorem C02_dsa_size : forall lib dec c p q g y m,
+  carries c (KDsa p q g y) = true -> fits c (KDsa p q g y) m -> so_accepted lib = true ->
+  attr_of "Size" (describe lib dec c (KDsa p q g y) m) = Some (dec_of_N (bitlen p) ++ bs " bits")
+  /\ attr_of "Algorithm" (describe lib dec c (KDsa p q g y) m) = Some (bs "DSA").
+Proof. exact dsa_size. Qed.
+Print Assumptions C02_dsa_size.
+
+Theorem C02_curve_named : forall lib dec c cv pt m,
+  carries c (KEc cv pt) = true -> fits c (KEc cv pt) m -> so_accepted lib = true ->
+  attr_of "Curve" (describe lib dec c (KEc cv pt) m) = Some (curve_shown cv)
+  /\ attr_of "Algorithm" (describe lib dec c (KEc cv pt) m) = Some (bs "ECDSA")
+  /\ attr_of "Size" (describe lib dec c (KEc cv pt) m) = None.
+Proof. exact curve_named. Qed.
+Print Assumptions C02_curve_named.
+
+(* and the displayed curve starts with the NIST name of the key's curve *)
+Theorem C02_curve_shown_is_nist : forall cv, prefix_of (curve_nist cv ++ [32]) (curve_shown cv) = true.
+Proof. exact curve_shown_nist. Qed.
+Print Assumptions C02_curve_shown_is_nist.
+
+Theorem C02_curve_edwards : forall lib dec c k m,
+  match k with KEd25519 _ | KEd448 _ | KX25519 _ | KX448 _ => True | _ => False end ->
+  carries c k = true -> fits c k m -> so_accepted lib = true ->
+  attr_of "Curve" (describe lib dec c k m) = expected_curve k
+  /\ attr_of "Algorithm" (describe lib dec c k m) = Some (expected_algorithm k).
+Proof. exact curve_edwards. Qed.
+Print Assumptions C02_curve_edwards.
+
+(* explicit (specifiedCurve) parameters: the prime size shown is the bit length of the prime; the curve
+   name is C16's (elliptic.CurveNameFromParameters enters as the argument name) *)
+Theorem C02_explicit_prime_size : forall p name,
+  ec_explicit_attrs [1; 2; 840; 10045; 1; 1] (Some (der_int_enc p)) None (Ok name)
+  = Ok ([(bs "Field type", bs "prime field"); (bs "Prime size", dec_of_N (bitlen p) ++ bs " bits")] ++
+        match name with [] => [] | _ :: _ => [(bs "Curve (inferred)", name)] end).
+Proof. exact explicit_prime_size. Qed.
+Print Assumptions C02_explicit_prime_size.
+
+(* the same key reports the same algorithm, size and curve whichever container carries it *)
+Theorem C02_container_independent : forall lib1 lib2 dec1 dec2 c1 c2 k m1 m2,
+  carries c1 k = true -> carries c2 k = true -> fits c1 k m1 -> fits c2 k m2 ->
+  so_accepted lib1 = true -> so_accepted lib2 = true ->
+  key_facts (describe lib1 dec1 c1 k m1) = key_facts (describe lib2 dec2 c2 k m2).
+Proof. exact container_independent. Qed.
+Print Assumptions C02_container_independent.
+
+(* ---------- container metadata is shown as stored ---------- *)
+
+(* key type label, comment (verbatim, absent when empty), cipher, KDF, rounds, PPK encryption and KDF line *)
+Theorem C02_metadata : forall lib dec c k m,
+  carries c k = true -> fits c k m -> so_accepted lib = true ->
+  let r := describe lib dec c k m in
+  (match c with CSshPublic | COpenSshPrivate | CPutty => attr_of "Type" r = Some (ssh_type_of k) | _ => True end)
+  /\ (match c with
+      | CSshPublic | CPutty | CSsh1 =>
+          attr_of "Comment" r = match m_comment m with [] => None | _ => Some (m_comment m) end
+      | _ => True end)
+  /\ (match c with
+      | COpenSshPrivate =>
+          let enc := negb (bytes_eqb (m_cipher m) (bs "none")) in
+          attr_of "Cipher" r = (if enc then Some (m_cipher m) else None)
+          /\ attr_of "KDF" r = (if enc then Some (m_kdf m) else None)
+          /\ attr_of "KDF rounds" r = (if enc then Some (dec_of_N (m_rounds m)) else None)
+      | CPutty =>
+          attr_of "Encryption" r = Some (m_ppk_encryption m)
+          /\ attr_of "KDF" r =
+             (if negb (bytes_eqb (m_ppk_encryption m) (bs "none")) && negb (bytes_eqb (m_ppk_kdf m) [])
+              then Some (ppk_kdf_value m) else None)
+      | _ => True end).
+Proof. exact metadata_shown. Qed.
+Print Assumptions C02_metadata.
+
+(* units: the PPK Argon2 memory parameter is rendered with the unit the file stores it in, KiB *)
+Theorem C02_units : forall m,
+  ppk_kdf_value m = m_ppk_kdf m ++ bs " (" ++ dec_of_Z (m_ppk_passes m) ++ bs " passes, " ++
+                    dec_of_Z (m_ppk_memory m) ++ bs " KiB" ++ bs ", parallelism: " ++
+                    dec_of_Z (m_ppk_parallelism m) ++ bs ")".
+Proof. reflexivity. Qed.
+Print Assumptions C02_units.
+
+(* the bcrypt rounds are read from the right offset of the KDF options, wherever the options sit in the file *)
+Theorem C02_kdf_rounds : forall salt rounds pre post,
+  N.of_nat (length salt) < 4294967288 -> rounds < 4294967296 ->
+  parse_kdf_options true (pre ++ kdf_options_enc salt rounds ++ post)
+                    (length pre) (length (kdf_options_enc salt rounds)) = Ok (salt, rounds).
+Proof. exact kdf_options_roundtrip. Qed.
+Print Assumptions C02_kdf_rounds.
+
+(* known_hosts: host patterns as stored, then the key's attributes *)
+Theorem C02_known_hosts : forall lib hosts blob comment k,
+  ssh_parse_public lib blob = Ok k ->
+  exists rest, ssh_known_hosts_one true lib (KhEntry hosts blob comment)
+               = Ok (Info (bs "SSH known_hosts") [] [Info (bs "SSH public key") ((bs "Hosts", join (bs ", ") hosts) :: rest) []])
+               /\ rest = ssh_public_attrs true k comment.
+Proof. exact known_hosts_shown. Qed.
+Print Assumptions C02_known_hosts.
+
+(* ---------- no private component is displayed ---------- *)
+
+(* structurally: the describers only ever receive public components (type pubkey of Model/Keys.v has no
+   others; the DER describers take the modulus / prime only).  As a theorem: two files that differ only in
+   private material (SSH1 d, q^-1 mod p, q, p, check bytes, padding; OpenSSH private block, salt) have the
+   same report *)
+Theorem C02_no_private : forall lib lib' dec dec' c k m m',
+  carries c k = true -> fits c k m -> fits c k m' -> so_accepted lib = true -> so_accepted lib' = true ->
+  same_public_meta m m' ->
+  describe lib dec c k m = describe lib' dec' c k m'.
+Proof. exact no_private. Qed.
+Print Assumptions C02_no_private.
+
+(* ---------- nothing panics, for ANY bytes ---------- *)
+
+Theorem C02_ssh1_no_panic : forall fx dec data s,
+  ssh1_parse dec data <> Panic s /\ ssh1_private_key fx dec data <> Panic s.
+Proof. intros. split; [apply ssh1_parse_no_panic|apply ssh1_private_key_no_panic]. Qed.
+Print Assumptions C02_ssh1_no_panic.
+
+Theorem C02_kdf_no_panic : forall buf off len s, parse_kdf_options true buf off len <> Panic s.
+Proof. exact kdf_no_panic. Qed.
+Print Assumptions C02_kdf_no_panic.
+
+Theorem C02_openssh_no_panic : forall lib der s, parse_openssh_private all_fixed lib der <> Panic s.
+Proof. exact openssh_private_no_panic. Qed.
+Print Assumptions C02_openssh_no_panic.
+
+Theorem C02_putty_no_panic : forall fx p s, putty_ppk fx p <> Panic s.
+Proof. exact putty_ppk_no_panic. Qed.
+Print Assumptions C02_putty_no_panic.
+
+(* ---------- the code as found refutes the property (witnesses on the pre-repair model) ---------- *)
+
+(* F26: modulus 2^2046+12345 (2047 bits) reported as 2048 bits by the OpenSSH, PuTTY and SSH1 routes,
+   as 2047 by PKCS#1: neither exact nor container independent *)
+Theorem C02_rsa_size_refuted :
+  bitlen f26_n = 2047
+  /\ attr_of "Size" (describe_fx none_fixed lib_yes (fun x => x) CSshPublic (KRsa f26_n 65537) meta0) = Some (bs "2048 bits")
+  /\ attr_of "Size" (describe_fx none_fixed lib_yes (fun x => x) COpenSshPrivate (KRsa f26_n 65537) meta0) = Some (bs "2048 bits")
+  /\ attr_of "Size" (describe_fx none_fixed lib_yes (fun x => x) CPutty (KRsa f26_n 65537) meta0) = Some (bs "2048 bits")
+  /\ attr_of "Size" (describe_fx none_fixed lib_yes (fun x => x) CSsh1 (KRsa f26_n 65537) meta0) = Some (bs "2048 bits")
+  /\ attr_of "Size" (describe_fx none_fixed lib_yes (fun x => x) CPkcs1Pub (KRsa f26_n 65537) meta0) = Some (bs "2047 bits")
+  /\ attr_of "Size" (describe lib_yes (fun x => x) CSsh1 (KRsa f26_n 65537) meta0) = Some (bs "2047 bits").
+Proof. exact F26_witness. Qed.
+Print Assumptions C02_rsa_size_refuted.
+
+(* F27: KiB labelled MB *)
+Theorem C02_units_refuted :
+  attr_of "KDF" (describe_fx none_fixed lib_yes (fun x => x) CPutty (KEd25519 ed_pk) meta_ppk3)
+    = Some (bs "Argon2id (13 passes, 8192 MB, parallelism: 1)")
+  /\ attr_of "KDF" (describe lib_yes (fun x => x) CPutty (KEd25519 ed_pk) meta_ppk3)
+    = Some (bs "Argon2id (13 passes, 8192 KiB, parallelism: 1)").
+Proof. exact F27_witness. Qed.
+Print Assumptions C02_units_refuted.
+
+(* N1: a KDF line for a version-2 PPK that stores none *)
+Theorem C02_metadata_refuted_ppk2 :
+  attr_of "KDF" (describe_fx none_fixed lib_yes (fun x => x) CPutty (KEd25519 ed_pk) meta_ppk2)
+    = Some (bs " (0 passes, 0 MB, parallelism: 0)")
+  /\ attr_of "KDF" (describe lib_yes (fun x => x) CPutty (KEd25519 ed_pk) meta_ppk2) = None.
+Proof. exact N1_witness. Qed.
+Print Assumptions C02_metadata_refuted_ppk2.
+
+(* F35: KDF options FF FF FF FC panic; empty options are read past their end *)
+Theorem C02_kdf_no_panic_refuted :
+  (exists buf off len s, parse_kdf_options false buf off len = Panic s)
+  /\ is_panic (parse_openssh_private none_fixed lib_yes f35_file) = true
+  /\ parse_kdf_options false ([0; 0; 0; 0] ++ [255; 255; 255; 248; 9; 9; 9; 9]) 4 0
+     = Panic "slice bounds out of range [i:len]".
+Proof.
+  split; [exact kdf_panics_before|]. split; [exact (proj1 F35_witness)|].
+  exact (proj1 (proj2 kdf_reads_next_field_before)).
+Qed.
+Print Assumptions C02_kdf_no_panic_refuted.
+
+(* N2: an encrypted SSH1 key was not described *)
+Theorem C02_ssh1_encrypted_refuted :
+  is_ok (ssh1_private_key none_fixed (fun x => x) n2_file) = false
+  /\ ssh1_private_key all_fixed (fun x => x) n2_file
+     = Ok (Info (bs "SSH v1 key (encrypted)")
+             [(bs "Comment", bs "enc"); (bs "Algorithm", bs "RSA"); (bs "Size", bs "1024 bits")] []).
+Proof. exact N2_witness. Qed.
+Print Assumptions C02_ssh1_encrypted_refuted.
+
+(* ---------- the hypotheses are met by ordinary keys ---------- *)
+
+Example C02_nonvacuous :
+  forallb (fun c => carries c (KRsa f26_n 65537))
+    [CPkcs1Pub; CPkcs1Priv; CSpki; CPkcs8; CSshPublic; COpenSshPrivate; CPutty; CSsh1] = true
+  /\ (forall c, carries c (KRsa f26_n 65537) = true -> fits c (KRsa f26_n 65537) meta_enc)
+  /\ carries COpenSshPrivate (KEc P384 [4; 1; 2]) = true /\ carries CPutty (KEd448 (repeat 1 57)) = true
+  /\ carries CSec1 (KEc P224 [4]) = true /\ carries CSshPublic (KDsa (2 ^ 1023 + 1) 5 6 7) = true.
+Proof.
+  split; [exact example_rsa_everywhere|]. split; [exact fits_example_rsa|].
+  destruct example_other_keys as (a & b & c & d & _). now repeat split.
+Qed.
+Print Assumptions C02_nonvacuous.
